@@ -7,7 +7,7 @@
     class (T11_match_complete_det of the design), the parser round trip (the parser model is tied by correspondence),
     pre-filters, tokenize/replace. *)
 From Coq Require Import Arith PeanoNat.
-From XV Require Import C11.Spec11 C11.ModelRange11 C11.Model11 C11.Proofs11a C11.Proofs11b C11.Proofs11c C11.Proofs11d C11.Proofs11e C11.Proofs11f C11.Proofs11g.
+From XV Require Import C11.Spec11 C11.ModelRange11 C11.Model11 C11.Proofs11a C11.Proofs11b C11.Proofs11c C11.Proofs11d C11.Proofs11e C11.Proofs11f C11.Proofs11g C11.Proofs11h Gen.GenC11Cat.
 Local Open Scope N_scope.
 
 (* ---------------------------------------------------------------------------------------------- *)
@@ -166,6 +166,51 @@ Proof.
   apply andb_true_iff in S. destruct S as [S1 S2]. apply Bool.eqb_prop in S1. apply Bool.eqb_prop in S2. auto.
 Qed.
 Print Assumptions T11_named_ascii.
+
+
+(* ---------------------------------------------------------------------------------------------- *)
+(** * category escapes \p{..} and the sets built from them
+    Gen/GenC11Cat.v is regenerated on every run: [cat_names], [cat_unicategory] from the source of the tree under
+    test (uniCategNames, getUniCategory), [cat_rle] = XMLUniCharacter::getType over all 65536 code units and
+    [cat_toks] = the range tokens, both as the built library reports them. *)
+Theorem T11_category_names : cat_names = std_cat_names ++ map (fun c => [c]) major_names.
+Proof. vm_compute. reflexivity. Qed.
+Print Assumptions T11_category_names.
+
+(** getUniCategory maps every general category to the one-letter class its name starts with
+    (in particular Co, private use, belongs to C) *)
+Theorem T11_category_letter : forall k, k < 30 ->
+  nth (N.to_nat (nth (N.to_nat k) cat_unicategory 0)) cat_names [] = [major_of_cat k].
+Proof.
+  intros k Hk. assert (A : letter_check = true) by (vm_compute; reflexivity).
+  unfold letter_check in A. rewrite forallb_forall in A. specialize (A k (nrange_in 30 k Hk)).
+  destruct (nth (N.to_nat (nth (N.to_nat k) cat_unicategory 0)) cat_names []) as [|c [|d r]]; try discriminate.
+  apply N.eqb_eq in A. subst. reflexivity.
+Qed.
+Print Assumptions T11_category_letter.
+
+(** the sweep over every BMP code unit and every escape: the token of \p{name k} contains c exactly when the category
+    of c belongs to escape k in the sense of the Spec (two-letter: equal; one-letter: the name starts with it) *)
+Theorem T11_category_tokens : forall k c, k < 37 -> c < 0x10000 ->
+  rmem (nth (N.to_nat k) cat_toks []) c = spec_cat_mem (cat_of cat_rle) k c.
+Proof.
+  apply category_tokens_spec; vm_compute; reflexivity.
+Qed.
+Print Assumptions T11_category_tokens.
+
+(** \w = everything except P, Z, C and \d = Nd, on every BMP code unit *)
+Theorem T11_word_def : forall c, c < 0x10000 -> rmem named_lc_w c = spec_word_pred (cat_of cat_rle c).
+Proof. apply word_spec; vm_compute; reflexivity. Qed.
+Print Assumptions T11_word_def.
+
+Theorem T11_digit_def : forall c, c < 0x10000 -> rmem named_lc_d c = spec_digit_pred (cat_of cat_rle c).
+Proof. apply digit_spec; vm_compute; reflexivity. Qed.
+Print Assumptions T11_digit_def.
+
+Example T11_category_nonvacuous :
+  cat_of cat_rle 0xE000 = 17 /\ spec_cat_mem (cat_of cat_rle) 34 0xE000 = true /\ spec_cat_mem (cat_of cat_rle) 0 0xE000 = false /\
+  spec_word_pred (cat_of cat_rle 0xE000) = false /\ spec_word_pred (cat_of cat_rle 97) = true /\ cat_of cat_rle 0xD800 = 18.
+Proof. vm_compute. repeat split. Qed.
 
 (* ---------------------------------------------------------------------------------------------- *)
 (** * the matcher *)
